@@ -20,18 +20,21 @@ Lemma parse_int_dec_int z :
 Proof.
   intro Hz. destruct z as [|p|p]; unfold dec_int.
   - reflexivity.
-  - unfold parse_int. destruct (dec (N.pos p)) as [|c r] eqn:E; [exfalso; exact (dec_nonnil _ E)|].
+  - destruct (dec (N.pos p)) as [|c r] eqn:E; [exfalso; exact (dec_nonnil _ E)|].
     assert (Hd : all_digits (c :: r) = true) by (rewrite <- E; apply uint_bytes_digits).
+    assert (Hb : bytes_uint (c :: r) = Some (N.to_uint (N.pos p))) by (rewrite <- E; apply bytes_uint_bytes).
     assert (Hc : byte_eqb c "-"%byte = false /\ byte_eqb c "+"%byte = false).
-    { cbn [all_digits forallb] in Hd. apply andb_true_iff in Hd. destruct Hd as [Hd _].
+    { change (all_digits (c :: r)) with ((48 <=? bN c)%N && (bN c <=? 57)%N && all_digits r) in Hd.
+      apply andb_true_iff in Hd. destruct Hd as [Hd _].
       destruct c; cbn in Hd; try discriminate; split; reflexivity. }
-    destruct Hc as [-> ->]. rewrite <- E. unfold dec. rewrite bytes_uint_bytes, DecimalN.Unsigned.of_to.
-    rewrite E.
+    destruct Hc as [Hc1 Hc2]. unfold parse_int. rewrite Hc1, Hc2. cbv beta iota. rewrite Hb.
+    rewrite DecimalN.Unsigned.of_to.
     assert (Hlt : (N.pos p <? two63)%N = true) by (apply N.ltb_lt; unfold two63 in *; lia).
     rewrite Hlt. reflexivity.
-  - unfold parse_int. cbn [byte_eqb Byte.eqb]. change (byte_eqb "-" "-") with true. cbn iota.
-    destruct (dec (N.pos p)) as [|c r] eqn:E; [exfalso; exact (dec_nonnil _ E)|].
-    rewrite <- E. unfold dec. rewrite bytes_uint_bytes, DecimalN.Unsigned.of_to.
+  - destruct (dec (N.pos p)) as [|c r] eqn:E; [exfalso; exact (dec_nonnil _ E)|].
+    assert (Hb : bytes_uint (c :: r) = Some (N.to_uint (N.pos p))) by (rewrite <- E; apply bytes_uint_bytes).
+    unfold parse_int. change (byte_eqb "-" "-") with true. cbv beta iota. rewrite Hb.
+    rewrite DecimalN.Unsigned.of_to.
     assert (Hle : (N.pos p <=? two63)%N = true) by (apply N.leb_le; unfold two63 in *; lia).
     rewrite Hle. reflexivity.
 Qed.
@@ -69,7 +72,7 @@ Proof.
   - reflexivity.
   - apply digits_no_space, uint_bytes_digits.
   - change (no_space ("-"%byte :: dec (N.pos p))) with (negb (is_space "-"%byte) && no_space (dec (N.pos p))).
-    rewrite (digits_no_space _ (uint_bytes_digits _)). reflexivity.
+    unfold dec. rewrite (digits_no_space _ (uint_bytes_digits _)). reflexivity.
 Qed.
 
 Lemma dec_int_nonnil z : dec_int z <> [].
